@@ -33,8 +33,8 @@ type RealPlan struct {
 }
 
 func genReal(r *simnet.Rng) *RealPlan {
-	p := &RealPlan{Payload: simnet.Pick(r, []string{"normal", "normal", "fast", "fail", "ignore-int"}), PidFirst: r.Bool(0.5), Release: r.Bool(0.5)}
-	if p.Payload == "ignore-int" || (p.Payload == "normal" && r.Bool(0.3)) {
+	p := &RealPlan{Payload: simnet.Pick(r, []string{"normal", "normal", "fast", "fail", "ignore-int", "last-words"}), PidFirst: r.Bool(0.5), Release: r.Bool(0.5)}
+	if p.Payload == "ignore-int" || p.Payload == "last-words" || (p.Payload == "normal" && r.Bool(0.3)) {
 		p.Cancel = "running"
 	}
 	return p
@@ -103,6 +103,8 @@ func runReal(t *testing.T, p *RealPlan, prop string, res *simnet.Result) {
 		"fast":       `-c "printf x"`,
 		"fail":       `-c "printf oops; exit 3"`,
 		"ignore-int": `-c "echo $$; trap '' INT; exec sleep 40"`,
+		// prints once more when it is interrupted: the runner's last update carries a size the daemon has not seen
+		"last-words": `-c "trap 'echo interrupted after all; exit 1' INT; echo started; sleep 40 & wait"`,
 	}[p.Payload]
 	node := simwork.NewWorkNode(w, ctl, nn, runDir, []simwork.WorkType{{Name: "real", Cmd: "/bin/sh", Params: script}})
 	if err := node.Start(); err != nil {
@@ -286,6 +288,10 @@ func runReal(t *testing.T, p *RealPlan, prop string, res *simnet.Result) {
 	time.Sleep(300 * time.Millisecond)
 	rec, _ := readRealRecord(statusPath)
 	out := simwork.ReadRaw(outPath)
+	// whoever wrote last: the size in the record is the size of the output (the runner owns that field)
+	if fi, err := os.Stat(outPath); err == nil && rec.StdoutSize != fi.Size() {
+		violate("c14:field-wiped", "the unit is finished (state %d, %q): the record says %d bytes of output, the file has %d", rec.State, rec.Detail, rec.StdoutSize, fi.Size())
+	}
 	switch {
 	case p.Cancel != "":
 		if payloadPid > 0 && procAlive(payloadPid) {
